@@ -19,16 +19,17 @@ func init() { register("C19", false, checkC19) }
 const gonumPath = "gonum.org/v1/gonum/graph/path"
 
 func checkC19(c *Ctx) {
-	c.Rule("C19.R1", "at every call of gonum path.AStar the static type of the graph argument implements path.Weighted (Weight(xid, yid int64) (float64, bool)) — the optional interface AStar asserts before falling back to unit edge costs")
-	c.Rule("C19.R5", "a query does not write the network: no function reachable from ShortestRoute inside the package assigns to a Network field, to a map or slice held by the network, or to package-level state (the answer is a function of the links and the two points, not of earlier queries)")
-	c.Rule("C19.R2", "in the heuristic passed to AStar, a network field used as divisor of a distance is maintained as a running maximum of link speeds (stores guarded by new > old or math.Max; initial value not above any speed); every value the heuristic returns is 0, the straight-line distance between the two nodes (when minimising distance) or that distance over the maximum speed (when minimising time) — the only estimates here that are lower bounds of every route's cost")
-	c.Rule("C19.R3", "the weight of an edge is its time or length field according to the option switch (no numeric default); a link's time is its length divided by the speed argument; the route loop visits every consecutive node pair and sums length and time of the very edge it appends")
-	c.Rule("C19.R4", "every store neighbors[a][b] = e is paired with neighbors[b][a] = e")
+	c.Rule("C19.R1", "at every call of gonum path.AStar the static type of the graph argument implements path.Weighted (Weight(xid, yid int64) (float64, bool)) — the optional interface AStar asserts before falling back to unit edge costs; model evaluation: on the model map the search the package sets up does not minimise the number of links")
+	c.Rule("C19.R5", "a query does not write the network: no function reachable from ShortestRoute inside the package assigns to a Network field, to a map or slice held by the network, or to package-level state; model evaluation: the network's tables are the same before and after every query")
+	c.Rule("C19.R2", "model evaluation of ShortestRoute on a map built through NewNetwork/AddLink with symbolic coordinates and speeds, gonum's A* replaced by a transcription that asks the interpreted graph for neighbours, weights and heuristic values: for both options the returned route is the cheapest of all simple routes although the map holds detours on which an over-estimating heuristic (a speed below the fastest link's, a multiple of the distance, a direct link's own cost) closes the destination too early")
+	c.Rule("C19.R3", "model evaluation, same runs: the route is a chain of the network's links from the node nearest to the start to the node nearest to the end; distance is the sum of their lengths and time the sum of length ÷ speed, as identities in the symbols; startDistance and endDistance are the straight-line distances to those nodes")
+	c.Rule("C19.R4", "model evaluation, same runs: the query in the opposite direction finds a route of the same cost (links are usable both ways)")
 	p := c.P.Pkg("route")
 	if p == nil {
 		c.Unk("C19.R1", "route", token.NoPos, "package not loaded")
 		return
 	}
+	c19model(c)
 	info := p.TypesInfo
 	dep := c.P.Dep(gonumPath)
 	if dep == nil {
@@ -92,709 +93,12 @@ func checkC19(c *Ctx) {
 		c.Unk("C19.R1", "route#AStar", token.NoPos, "no call of gonum path.AStar found")
 		return
 	}
-	// ---------------- R2
-	for _, h := range heuristics {
-		fd := c.P.Decl(h)
-		if fd == nil {
-			continue
-		}
-		var divisors []*types.Var
-		ast.Inspect(fd.Body, func(n ast.Node) bool {
-			b, ok := n.(*ast.BinaryExpr)
-			if !ok || b.Op != token.QUO {
-				return true
-			}
-			if sel, ok := unparen(b.Y).(*ast.SelectorExpr); ok {
-				if s := info.Selections[sel]; s != nil {
-					if v, ok := s.Obj().(*types.Var); ok && v.IsField() && named(s.Recv()) == netT {
-						divisors = append(divisors, v)
-					}
-				}
-			}
-			return true
-		})
-		if len(divisors) == 0 {
-			c.OK("C19.R2", c.P.FuncName(h)+"#divisor", fd.Pos(), "the heuristic divides by no network field")
-		}
-		for _, f := range divisors {
-			cons := c.P.FuncName(h) + "#divisor:" + f.Name()
-			msg := c19maxAccumulator(c, info, p, f)
-			if msg == "" {
-				c.OK("C19.R2", cons, fd.Pos(), "`%s` is a running maximum: distance/%s never exceeds the true travel time", f.Name(), f.Name())
-			} else {
-				c.Bad("C19.R2", cons, fd.Pos(), "the heuristic estimates time as distance / %s, but %s; dividing by anything below the fastest link speed over-estimates the remaining time, the heuristic is inadmissible and A* returns non-minimal routes", f.Name(), msg)
-			}
-		}
-	}
-	for _, h := range heuristics {
-		if fd := c.P.Decl(h); fd != nil {
-			c19heuristicReturns(c, info, p, h, fd)
-		}
-	}
-	if len(heuristics) == 0 {
-		c.OK("C19.R2", "route#heuristic", token.NoPos, "no heuristic is passed (null heuristic is admissible)")
-	}
-	c19weights(c, info, p, netT)
-	c19symmetric(c, info, p)
 	c19queryPure(c, info, p, netT)
 	c.Floor("C19.R5", 1)
 	c.Floor("C19.R1", 1)
 	c.Floor("C19.R2", 2)
-	c.Floor("C19.R3", 2)
+	c.Floor("C19.R3", 3)
 	c.Floor("C19.R4", 1)
-}
-
-// c19maxAccumulator: every store to field f keeps it a running maximum.
-func c19maxAccumulator(c *Ctx, info *types.Info, p *pkgT, f *types.Var) string {
-	stores := 0
-	msg := ""
-	for _, fn := range c.P.RepoFuncs() {
-		if c.P.DeclPkg(fn) != p {
-			continue
-		}
-		fd := c.P.Decl(fn)
-		ast.Inspect(fd.Body, func(n ast.Node) bool {
-			switch x := n.(type) {
-			case *ast.CompositeLit:
-				for _, el := range x.Elts {
-					kv, ok := el.(*ast.KeyValueExpr)
-					if !ok || src(kv.Key) != f.Name() || named(info.TypeOf(x)) == nil {
-						continue
-					}
-					if st, ok := named(info.TypeOf(x)).Underlying().(*types.Struct); ok {
-						has := false
-						for i := 0; i < st.NumFields(); i++ {
-							if st.Field(i) == f {
-								has = true
-							}
-						}
-						if !has {
-							continue
-						}
-					}
-					stores++
-					// initial value: 0 or -Inf
-					okInit := false
-					if v := constOf(info, kv.Value); v != nil && (v.String() == "0") {
-						okInit = true
-					}
-					if call, ok := unparen(kv.Value).(*ast.CallExpr); ok && isFuncIn(callee(info, call), "math", "Inf") {
-						if k, ok := constInt(info, call.Args[0]); ok && k < 0 {
-							okInit = true
-						}
-					}
-					if !okInit {
-						msg = "it starts at `" + src(kv.Value) + "`, which is above every link speed"
-					}
-				}
-			case *ast.AssignStmt:
-				for i, l := range x.Lhs {
-					sel, ok := unparen(l).(*ast.SelectorExpr)
-					if !ok {
-						continue
-					}
-					s := info.Selections[sel]
-					if s == nil || s.Obj() != f {
-						continue
-					}
-					stores++
-					rhs := x.Rhs[min(i, len(x.Rhs)-1)]
-					// math.Max(old, new)
-					if call, ok := unparen(rhs).(*ast.CallExpr); ok && isFuncIn(callee(info, call), "math", "Max") {
-						if sameExpr(info, call.Args[0], l) || sameExpr(info, call.Args[1], l) {
-							continue
-						}
-					}
-					// if new > old { old = new }
-					guarded := false
-					for _, anc := range enclosing(fd.Body, x) {
-						is, ok := anc.(*ast.IfStmt)
-						if !ok {
-							continue
-						}
-						b, ok := unparen(is.Cond).(*ast.BinaryExpr)
-						if !ok {
-							continue
-						}
-						if (b.Op == token.GTR || b.Op == token.GEQ) && sameExpr(info, b.X, rhs) && sameExpr(info, b.Y, l) {
-							guarded = true
-						}
-						if (b.Op == token.LSS || b.Op == token.LEQ) && sameExpr(info, b.Y, rhs) && sameExpr(info, b.X, l) {
-							guarded = true
-						}
-					}
-					if !guarded {
-						msg = "`" + src(x) + "` in " + fn.Name() + " does not keep it at the maximum of the link speeds (it is lowered to slower links)"
-					}
-				}
-			}
-			return true
-		})
-	}
-	if msg == "" && stores == 0 {
-		return "it is never assigned"
-	}
-	return msg
-}
-
-func c19weights(c *Ctx, info *types.Info, p *pkgT, netT *types.Named) {
-	// field roles from AddLink's edge literal: time = length / speed, length = op.Length(l)
-	add := c.P.Method("route", "Network", "AddLink")
-	afd := c.P.Decl(add)
-	if afd == nil {
-		c.Unk("C19.R3", "route.(*Network).AddLink", token.NoPos, "API anchor does not resolve")
-		return
-	}
-	params := paramVars(info, afd.Type)
-	var speedParam types.Object
-	for _, pv := range params {
-		if pv != nil && isFloat64(pv.Type()) {
-			speedParam = pv
-		}
-	}
-	sc := newFnScope(info, afd.Body)
-	var lengthField, timeField string
-	var lit *ast.CompositeLit
-	ast.Inspect(afd.Body, func(n ast.Node) bool {
-		cl, ok := n.(*ast.CompositeLit)
-		if !ok {
-			return true
-		}
-		for _, el := range cl.Elts {
-			kv, ok := el.(*ast.KeyValueExpr)
-			if !ok {
-				continue
-			}
-			v := unparen(kv.Value)
-			if b, ok := v.(*ast.BinaryExpr); ok && b.Op == token.QUO {
-				timeField = src(kv.Key)
-				lit = cl
-				lenOK := false
-				if o := objOf(info, b.X); o != nil {
-					if d := sc.singleDef(o); d != nil {
-						if call, ok := unparen(d).(*ast.CallExpr); ok && isFuncIn(callee(info, call), modPath+"/op", "Length") {
-							lenOK = true
-						}
-					}
-				}
-				if lenOK && objOf(info, b.Y) == speedParam && speedParam != nil {
-					c.OK("C19.R3", "route.(*Network).AddLink#time", kv.Pos(), "time = length / speed")
-				} else {
-					c.Bad("C19.R3", "route.(*Network).AddLink#time", kv.Pos(), "a link's time is `%s`, not its length divided by the speed argument", src(v))
-				}
-			} else if o := objOf(info, v); o != nil && isFloat64(o.Type()) {
-				if d := sc.singleDef(o); d != nil {
-					if call, ok := unparen(d).(*ast.CallExpr); ok && isFuncIn(callee(info, call), modPath+"/op", "Length") {
-						lengthField = src(kv.Key)
-					}
-				}
-			}
-		}
-		return true
-	})
-	_ = lit
-	if timeField == "" || lengthField == "" {
-		if timeField == "" {
-			c.Bad("C19.R3", "route.(*Network).AddLink#time", afd.Pos(), "no field of the link is initialised as length / speed")
-		}
-		if lengthField == "" {
-			c.Unk("C19.R3", "route.(*Network).AddLink#length", afd.Pos(), "no field of the link is initialised from op.Length")
-		}
-		return
-	}
-	// the Weight method of Network (any receiver form)
-	var wm *types.Func
-	for _, recv := range []types.Type{netT, types.NewPointer(netT)} {
-		if obj, _, _ := types.LookupFieldOrMethod(recv, true, p.Types, "Weight"); obj != nil {
-			if f, ok := obj.(*types.Func); ok {
-				wm = f
-			}
-		}
-	}
-	if wfd := c.P.Decl(wm); wfd != nil {
-		// every return of an edge field in Weight (or in a helper it calls with the edge) stands under a
-		// test of the minimisation option — a case clause or an `if opt == Const` — and returns that
-		// option's field; both options are handled; nothing else returns a weight by default
-		seen := map[string]bool{}
-		msg := ""
-		var scan func(fd *ast.FuncDecl, depth int)
-		scan = func(fd *ast.FuncDecl, depth int) {
-			ast.Inspect(fd.Body, func(n ast.Node) bool {
-				switch x := n.(type) {
-				case *ast.ReturnStmt:
-					if len(x.Results) < 1 {
-						return true
-					}
-					sel, ok := unparen(x.Results[0]).(*ast.SelectorExpr)
-					if !ok || (sel.Sel.Name != timeField && sel.Sel.Name != lengthField) {
-						return true
-					}
-					opt := c19option(info, p, fd, x)
-					want := map[string]string{"Time": timeField, "Distance": lengthField}[opt]
-					switch {
-					case opt == "":
-						if msg == "" {
-							msg = "`" + src(x) + "` returns an edge field without a test of the minimisation option"
-						}
-					case sel.Sel.Name != want:
-						if msg == "" {
-							msg = "minimising " + opt + " weighs an edge by `" + src(x.Results[0]) + "`, want its " + want + " field"
-						}
-					default:
-						seen[opt] = true
-					}
-				case *ast.CallExpr:
-					if depth < 2 {
-						if f := callee(info, x); f != nil && c.P.Decl(f) != nil && c.P.DeclPkg(f) == p && f != wm {
-							scan(c.P.Decl(f), depth+1)
-						}
-					}
-				}
-				return true
-			})
-		}
-		scan(wfd, 0)
-		if msg == "" && (!seen["Time"] || !seen["Distance"]) {
-			msg = "Weight does not return the time field under Time and the length field under Distance (found: " + fmt.Sprint(seen) + ")"
-		}
-		if msg == "" {
-			c.OK("C19.R3", c.P.FuncName(wm)+"#option", wfd.Pos(), "Time→%s, Distance→%s", timeField, lengthField)
-		} else {
-			c.Bad("C19.R3", c.P.FuncName(wm)+"#option", wfd.Pos(), "%s", msg)
-		}
-	} else {
-		c.Unk("C19.R3", "route.Network.Weight", token.NoPos, "Weight method not found")
-	}
-	// route loop
-	sr := c.P.Method("route", "Network", "ShortestRoute")
-	sfd := c.P.Decl(sr)
-	if sfd == nil {
-		c.Unk("C19.R3", "route.(Network).ShortestRoute", token.NoPos, "API anchor does not resolve")
-		return
-	}
-	// the loop that turns the node path into links and totals: in ShortestRoute or in a helper it calls
-	type found struct {
-		fd               *ast.FuncDecl
-		loop             ast.Stmt
-		body             *ast.BlockStmt
-		route, dist, tim types.Object
-		msg              string
-	}
-	var hit *found
-	isNeighborsLookup := func(e ast.Expr) (x, y ast.Expr, ok bool) {
-		o, ok1 := unparen(e).(*ast.IndexExpr)
-		if !ok1 {
-			return nil, nil, false
-		}
-		in, ok2 := unparen(o.X).(*ast.IndexExpr)
-		if !ok2 {
-			return nil, nil, false
-		}
-		if _, isMap := info.TypeOf(in.X).Underlying().(*types.Map); !isMap {
-			return nil, nil, false
-		}
-		return in.Index, o.Index, true
-	}
-	var search func(fd *ast.FuncDecl, depth int)
-	search = func(fd *ast.FuncDecl, depth int) {
-		if hit != nil {
-			return
-		}
-		ast.Inspect(fd.Body, func(n ast.Node) bool {
-			if hit != nil {
-				return false
-			}
-			var body *ast.BlockStmt
-			switch x := n.(type) {
-			case *ast.ForStmt:
-				body = x.Body
-			case *ast.RangeStmt:
-				body = x.Body
-			case *ast.CallExpr:
-				if depth < 2 {
-					if f := callee(info, x); f != nil && c.P.Decl(f) != nil && c.P.DeclPkg(f) == p {
-						search(c.P.Decl(f), depth+1)
-					}
-				}
-				return true
-			default:
-				return true
-			}
-			// does the body accumulate e.length and e.time of a looked-up link?
-			var ev types.Object
-			var kx, ky ast.Expr
-			h := &found{fd: fd, loop: n.(ast.Stmt), body: body}
-			for _, bs := range body.List {
-				as, ok := bs.(*ast.AssignStmt)
-				if !ok || len(as.Rhs) != 1 {
-					continue
-				}
-				if x, y, ok := isNeighborsLookup(as.Rhs[0]); ok && ev == nil {
-					ev, kx, ky = objOf(info, as.Lhs[0]), x, y
-					continue
-				}
-				if ev == nil {
-					continue
-				}
-				if call, ok := unparen(as.Rhs[0]).(*ast.CallExpr); ok && builtinName(info, call) == "append" && len(call.Args) == 2 && rootObj(info, call.Args[1]) == ev {
-					h.route = objOf(info, as.Lhs[0])
-				}
-				if as.Tok == token.ADD_ASSIGN {
-					if sel, ok := unparen(as.Rhs[0]).(*ast.SelectorExpr); ok && objOf(info, sel.X) == ev {
-						switch sel.Sel.Name {
-						case lengthField:
-							h.dist = objOf(info, as.Lhs[0])
-						case timeField:
-							h.tim = objOf(info, as.Lhs[0])
-						}
-					}
-				}
-			}
-			if ev == nil || (h.dist == nil && h.tim == nil && h.route == nil) {
-				return true
-			}
-			hit = h
-			if h.route == nil {
-				h.msg = "the link looked up for a pair of path nodes is not appended to the route"
-			} else if h.dist == nil || h.tim == nil {
-				h.msg = "the totals do not add the appended link's " + lengthField + " and " + timeField
-			}
-			if brk, cont, _ := earlyExits(body); len(brk)+len(cont) > 0 && h.msg == "" {
-				h.msg = "the route loop has break/continue: links after it are missing from the route and the totals"
-			}
-			// consecutive pairs
-			if h.msg == "" {
-				sc := newFnScope(info, fd.Body)
-				idOf := func(e ast.Expr) ast.Expr { // X.ID() → X ; a local defined as X.ID() → X
-					e = unparen(e)
-					if o := objOf(info, e); o != nil {
-						if d := sc.singleDef(o); d != nil {
-							e = unparen(d)
-						}
-					}
-					if call, ok := e.(*ast.CallExpr); ok && len(call.Args) == 0 {
-						if sel, ok := unparen(call.Fun).(*ast.SelectorExpr); ok && sel.Sel.Name == "ID" {
-							return unparen(sel.X)
-						}
-					}
-					return nil
-				}
-				okPairs := false
-				if l := sc.loopOf(h.loop); l != nil && l.Idx != nil {
-					// idiom A: X[i], X[i+1] over [0, len-1)
-					ax, ay := idOf(kx), idOf(ky)
-					ix, okx := ax.(*ast.IndexExpr)
-					iy, oky := ay.(*ast.IndexExpr)
-					if okx && oky && sameExpr(info, ix.X, iy.X) {
-						o1, ok1 := sc.idxOffset(ix.Index, l.Idx)
-						o2, ok2 := sc.idxOffset(iy.Index, l.Idx)
-						full := l.Lo.ok && l.Lo.Of == nil && l.Lo.K == 0 && l.Hi.ok && l.Hi.K == -1 && l.Hi.Of != nil && sameExpr(info, l.Hi.Of, ix.X)
-						if ok1 && ok2 && o1 == 0 && o2 == 1 && full {
-							okPairs = true
-						} else if ok1 && ok2 {
-							h.msg = "the loop " + l.String() + " with nodes [i" + fmt.Sprintf("%+d", o1) + "], [i" + fmt.Sprintf("%+d", o2) + "] does not visit every consecutive pair of path nodes (0..len-2)"
-						}
-					}
-				}
-				if rs, ok := h.loop.(*ast.RangeStmt); ok && !okPairs && h.msg == "" {
-					// idiom B: for _, n := range X[1:] { …neighbors[prev][n.ID()]…; prev = n.ID() } with prev := X[0].ID()
-					if se, ok := unparen(rs.X).(*ast.SliceExpr); ok && se.High == nil && rs.Value != nil {
-						lowOne := false
-						if k, ok := constInt(info, se.Low); ok && k == 1 {
-							lowOne = true
-						}
-						cur := objOf(info, rs.Value)
-						prev := objOf(info, kx)
-						curID := idOf(ky)
-						isCur := curID != nil && objOf(info, curID) == cur
-						// prev initialised from X[0].ID() before the loop, reassigned to the current id as last statement
-						initOK, stepOK := false, false
-						if prev != nil {
-							for _, d := range sc.defs[prev] {
-								if d == nil {
-									continue
-								}
-								if x := idOf(d); x != nil {
-									if ix, ok := x.(*ast.IndexExpr); ok && sameExpr(info, ix.X, se.X) {
-										if k, ok := constInt(info, ix.Index); ok && k == 0 && d.Pos() < rs.Pos() {
-											initOK = true
-										}
-									}
-								}
-							}
-							if n := len(body.List); n > 0 {
-								if as, ok := body.List[n-1].(*ast.AssignStmt); ok && len(as.Lhs) == 1 && objOf(info, as.Lhs[0]) == prev && as.Tok == token.ASSIGN {
-									if x := idOf(as.Rhs[0]); x != nil && objOf(info, x) == cur {
-										stepOK = true
-									} else if o := objOf(info, as.Rhs[0]); o != nil && o == objOf(info, ky) {
-										stepOK = true
-									}
-								}
-							}
-						}
-						if lowOne && isCur && initOK && stepOK {
-							okPairs = true
-						}
-					}
-				}
-				if !okPairs && h.msg == "" {
-					h.msg = "?the way the loop pairs consecutive path nodes is not one of the recognised forms (nodes[i], nodes[i+1] over 0..len-2; or range over nodes[1:] with the previous node carried along)"
-				}
-			}
-			return false
-		})
-	}
-	search(sfd, 0)
-	msg := ""
-	switch {
-	case hit == nil:
-		msg = "no loop turning the node path into links and totals found in ShortestRoute or its helpers"
-	case hit.msg != "":
-		msg = hit.msg
-	default:
-		// the accumulated values are what ShortestRoute reports: either they are its named results, or the
-		// helper returns them and ShortestRoute assigns the call to (route, distance, time); nothing else writes them
-		results := map[string]types.Object{}
-		for _, rv := range resultVars(info, sfd.Type) {
-			if rv != nil {
-				results[rv.Name()] = rv
-			}
-		}
-		var target [3]types.Object // route, distance, time results of ShortestRoute
-		for _, rv := range resultVars(info, sfd.Type) {
-			if rv == nil {
-				continue
-			}
-			switch {
-			case isNamed(rv.Type(), modPath, "MultiLineString"):
-				target[0] = rv
-			case rv.Name() == "distance":
-				target[1] = rv
-			case rv.Name() == "time":
-				target[2] = rv
-			}
-		}
-		var writer ast.Node // the statement in ShortestRoute that legitimately writes the three results
-		if hit.fd == sfd {
-			if hit.route != target[0] || hit.dist != target[1] || hit.tim != target[2] {
-				msg = "the loop accumulates into variables that are not ShortestRoute's route/distance/time results"
-			}
-			writer = hit.loop
-		} else {
-			// helper: returns (route, dist, time) in that order; ShortestRoute assigns them in that order
-			order := [3]types.Object{hit.route, hit.dist, hit.tim}
-			okRet := false
-			ast.Inspect(hit.fd.Body, func(n ast.Node) bool {
-				if r, ok := n.(*ast.ReturnStmt); ok && len(r.Results) == 3 && r.Pos() > hit.loop.End() {
-					if objOf(info, r.Results[0]) == order[0] && objOf(info, r.Results[1]) == order[1] && objOf(info, r.Results[2]) == order[2] {
-						okRet = true
-					}
-				}
-				return true
-			})
-			if !okRet {
-				hr := resultVars(info, hit.fd.Type)
-				if len(hr) == 3 && hr[0] == order[0] && hr[1] == order[1] && hr[2] == order[2] {
-					okRet = true
-				}
-			}
-			if !okRet {
-				msg = "the helper does not return the accumulated route, distance and time (in that order)"
-			}
-			ast.Inspect(sfd.Body, func(n ast.Node) bool {
-				as, ok := n.(*ast.AssignStmt)
-				if !ok || len(as.Rhs) != 1 || len(as.Lhs) != 3 {
-					return true
-				}
-				if call, ok := unparen(as.Rhs[0]).(*ast.CallExpr); ok && c.P.Decl(callee(info, call)) == hit.fd {
-					if objOf(info, as.Lhs[0]) == target[0] && objOf(info, as.Lhs[1]) == target[1] && objOf(info, as.Lhs[2]) == target[2] {
-						writer = as
-					}
-				}
-				return true
-			})
-			if writer == nil && msg == "" {
-				msg = "ShortestRoute does not assign the helper's (route, distance, time) to its results in that order"
-			}
-		}
-		if msg == "" {
-			ast.Inspect(sfd.Body, func(n ast.Node) bool {
-				as, ok := n.(*ast.AssignStmt)
-				if !ok || n == writer || (writer != nil && as.Pos() >= writer.Pos() && as.End() <= writer.End()) {
-					return true
-				}
-				for _, lh := range as.Lhs {
-					if o := objOf(info, lh); o != nil && (o == target[0] || o == target[1] || o == target[2]) && msg == "" {
-						msg = "`" + src(as) + "` overwrites `" + o.Name() + "` outside the loop over the route's links: the reported total is no longer the sum over the returned links (for unconnected nodes the search cost is +Inf while the route is empty)"
-					}
-				}
-				return true
-			})
-		}
-	}
-	switch {
-	case msg == "":
-		c.OK("C19.R3", c.P.FuncName(sr)+"#totals", sfd.Pos(), "every consecutive pair of path nodes; the looked-up link is appended and its %s and %s are summed into the reported totals, which nothing else writes", lengthField, timeField)
-	case strings.HasPrefix(msg, "?"):
-		c.Unk("C19.R3", c.P.FuncName(sr)+"#totals", sfd.Pos(), "%s", msg[1:])
-	default:
-		c.Bad("C19.R3", c.P.FuncName(sr)+"#totals", sfd.Pos(), "%s", msg)
-	}
-}
-
-func c19symmetric(c *Ctx, info *types.Info, p *pkgT) {
-	n := 0
-	for _, fn := range c.P.RepoFuncs() {
-		if c.P.DeclPkg(fn) != p {
-			continue
-		}
-		fd := c.P.Decl(fn)
-		ast.Inspect(fd.Body, func(nd ast.Node) bool {
-			blk, ok := nd.(*ast.BlockStmt)
-			if !ok {
-				return true
-			}
-			type st struct {
-				m, a, b, v ast.Expr
-				pos        token.Pos
-			}
-			var stores []st
-			for _, s := range blk.List {
-				as, ok := s.(*ast.AssignStmt)
-				if !ok || len(as.Lhs) != 1 || len(as.Rhs) != 1 {
-					continue
-				}
-				o, ok := unparen(as.Lhs[0]).(*ast.IndexExpr)
-				if !ok {
-					continue
-				}
-				in, ok := unparen(o.X).(*ast.IndexExpr)
-				if !ok {
-					continue
-				}
-				if _, isMap := info.TypeOf(in.X).Underlying().(*types.Map); !isMap {
-					continue
-				}
-				stores = append(stores, st{in.X, in.Index, o.Index, as.Rhs[0], as.Pos()})
-			}
-			for _, s := range stores {
-				n++
-				paired := false
-				for _, t := range stores {
-					if sameExpr(info, s.m, t.m) && sameExpr(info, s.a, t.b) && sameExpr(info, s.b, t.a) && sameExpr(info, s.v, t.v) {
-						paired = true
-					}
-				}
-				cons := c.P.FuncName(fn) + "#link:" + src(s.m) + "[" + src(s.a) + "][" + src(s.b) + "]"
-				if paired {
-					c.OK("C19.R4", cons, s.pos, "mirrored")
-				} else {
-					c.Bad("C19.R4", cons, s.pos, "the link is stored for %s→%s but not for %s→%s: links are two-way, a route in the other direction would not find it", src(s.a), src(s.b), src(s.b), src(s.a))
-				}
-			}
-			return true
-		})
-	}
-	if n == 0 {
-		c.Unk("C19.R4", "route#neighbor-stores", token.NoPos, "no adjacency stores found")
-	}
-}
-
-// c19heuristicReturns: every return of the A* heuristic is a lower bound by construction.
-func c19heuristicReturns(c *Ctx, info *types.Info, p *pkgT, h *types.Func, fd *ast.FuncDecl) {
-	sc := newFnScope(info, fd.Body)
-	ps := paramVars(info, fd.Type)
-	mentions := func(e ast.Expr, o types.Object) bool {
-		found := false
-		ast.Inspect(e, func(n ast.Node) bool {
-			if id, ok := n.(*ast.Ident); ok && info.ObjectOf(id) == o {
-				found = true
-			}
-			return !found
-		})
-		return found
-	}
-	// straight: op.Distance(point of x, point of y)
-	var straight func(e ast.Expr, depth int) bool
-	straight = func(e ast.Expr, depth int) bool {
-		e = unparen(e)
-		if depth > 3 {
-			return false
-		}
-		if call, ok := e.(*ast.CallExpr); ok {
-			if isFuncIn(callee(info, call), modPath+"/op", "Distance") && len(call.Args) == 2 && len(ps) == 2 && ps[0] != nil && ps[1] != nil {
-				return (mentions(call.Args[0], ps[0]) && mentions(call.Args[1], ps[1])) || (mentions(call.Args[0], ps[1]) && mentions(call.Args[1], ps[0]))
-			}
-			return false
-		}
-		if o := objOf(info, e); o != nil {
-			ds := sc.defs[o]
-			if len(ds) == 0 {
-				return false
-			}
-			for _, d := range ds {
-				if d == nil || !straight(d, depth+1) {
-					return false
-				}
-			}
-			return true
-		}
-		return false
-	}
-	kind := func(e ast.Expr) string {
-		e = unparen(e)
-		if v := constOf(info, e); v != nil && v.String() == "0" {
-			return "zero"
-		}
-		if straight(e, 0) {
-			return "distance"
-		}
-		if b, ok := e.(*ast.BinaryExpr); ok && b.Op == token.QUO && straight(b.X, 0) {
-			if sel, ok := unparen(b.Y).(*ast.SelectorExpr); ok {
-				if sl := info.Selections[sel]; sl != nil {
-					if v, ok := sl.Obj().(*types.Var); ok && v.IsField() {
-						return "time" // the divisor field is judged by the running-maximum obligation
-					}
-				}
-			}
-		}
-		return ""
-	}
-	n := 0
-	ast.Inspect(fd.Body, func(nd ast.Node) bool {
-		if _, ok := nd.(*ast.FuncLit); ok {
-			return false
-		}
-		r, ok := nd.(*ast.ReturnStmt)
-		if !ok || len(r.Results) != 1 {
-			return true
-		}
-		n++
-		cons := fmt.Sprintf("%s#return:%s", c.P.FuncName(h), src(r.Results[0]))
-		k := kind(r.Results[0])
-		// which minimisation option is this return under?
-		opt := c19option(info, p, fd, r)
-		switch {
-		case k == "":
-			c.Bad("C19.R2", cons, r.Pos(), "the heuristic returns `%s`, which is not 0, the straight-line distance between the two nodes, or that distance over the maximum speed: nothing makes it a lower bound of the cheapest route's cost (a direct link's own weight, for example, exceeds a cheaper detour), so A* may settle the destination through a non-minimal route", src(r.Results[0]))
-		case k == "zero":
-			c.OK("C19.R2", cons, r.Pos(), "0 is a lower bound")
-		case k == "distance" && opt == "Distance":
-			c.OK("C19.R2", cons, r.Pos(), "minimising distance: the straight line is no longer than any chain of links")
-		case k == "time" && opt == "Time":
-			c.OK("C19.R2", cons, r.Pos(), "minimising time: straight-line distance over the maximum speed")
-		case k == "distance" && opt == "Time":
-			c.Bad("C19.R2", cons, r.Pos(), "when minimising time the heuristic returns a distance: for speeds above 1 it exceeds the true remaining time")
-		case k == "time" && opt == "Distance":
-			c.Bad("C19.R2", cons, r.Pos(), "when minimising distance the heuristic returns distance/speed: for maximum speeds below 1 it exceeds the true remaining distance")
-		default:
-			c.Unk("C19.R2", cons, r.Pos(), "return `%s` (%s) is not under a case of the minimisation option: cannot tell which cost it must bound", src(r.Results[0]), k)
-		}
-		return true
-	})
-	if n == 0 {
-		c.Unk("C19.R2", c.P.FuncName(h)+"#returns", fd.Pos(), "the heuristic has no return statement")
-	}
 }
 
 // c19queryPure: ShortestRoute and everything it reaches in the package leave the network untouched.
@@ -894,49 +198,4 @@ func c19queryPure(c *Ctx, info *types.Info, p *pkgT, netT *types.Named) {
 	if nWrites == 0 {
 		c.OK("C19.R5", "route.(Network).ShortestRoute#no-writes", c.P.Decl(sr).Pos(), "%d functions reachable from the query; none assigns to the network or to package-level state", len(order))
 	}
-}
-
-// c19option tells under which minimisation option a node of fd executes: the constant named in an
-// enclosing case clause, or in the condition of an enclosing `if X == Const` (node in the body) /
-// `if X != Const` (node in the else branch).  "" when neither.
-func c19option(info *types.Info, p *pkgT, fd *ast.FuncDecl, n ast.Node) string {
-	timeC, distC := p.Types.Scope().Lookup("Time"), p.Types.Scope().Lookup("Distance")
-	name := func(o types.Object) string {
-		switch o {
-		case timeC:
-			return "Time"
-		case distC:
-			return "Distance"
-		}
-		return ""
-	}
-	opt := ""
-	for _, anc := range enclosing(fd.Body, n) {
-		switch x := anc.(type) {
-		case *ast.CaseClause:
-			for _, e := range x.List {
-				if nm := name(objOf(info, e)); nm != "" {
-					opt += nm
-				}
-			}
-		case *ast.IfStmt:
-			b, ok := unparen(x.Cond).(*ast.BinaryExpr)
-			if !ok || (b.Op != token.EQL && b.Op != token.NEQ) {
-				continue
-			}
-			nm := name(objOf(info, b.Y))
-			if nm == "" {
-				nm = name(objOf(info, b.X))
-			}
-			if nm == "" {
-				continue
-			}
-			inBody := containsNode(x.Body, n)
-			inElse := x.Else != nil && containsNode(x.Else, n)
-			if (b.Op == token.EQL && inBody) || (b.Op == token.NEQ && inElse) {
-				opt += nm
-			}
-		}
-	}
-	return opt
 }
